@@ -1,5 +1,5 @@
 //! Hooks-off companion binary (built WITHOUT --cfg in_toto_verif).
-//! usage: itv-plain battery <scratch-dir> | wallclock <scratch-dir>
+//! usage: itv-plain battery <scratch-dir> | wallclock <scratch-dir> | ageing <scratch-dir>
 #[path = "../../shared/battery.rs"]
 mod battery;
 
@@ -16,8 +16,12 @@ fn main() {
             let v: Vec<_> = battery::wall_clock(&root).into_iter().map(|(t, d, o)| serde_json::json!({"expires": t, "delta_s": d, "outcome": o})).collect();
             println!("{}", serde_json::Value::Array(v));
         }
+        Some("ageing") => {
+            let v: Vec<_> = battery::ageing(&root).into_iter().map(|(l, e, a, b, o)| serde_json::json!({"label": l, "expires": e, "started_past_expiry_s": a, "returned_past_expiry_s": b, "outcome": o})).collect();
+            println!("{}", serde_json::Value::Array(v));
+        }
         _ => {
-            eprintln!("usage: itv-plain battery|wallclock <dir>");
+            eprintln!("usage: itv-plain battery|wallclock|ageing <dir>");
             std::process::exit(2);
         }
     }
